@@ -27,6 +27,11 @@ pub enum Case {
     Splice { a: GTx, b: GTx, cut_a: u16, cut_b: u16 },
     /// VarInt helper
     Varint { n: u64 },
+    /// arbitrary bytes (regression inputs, fuzzer artifacts)
+    Raw {
+        #[serde(with = "crate::gen::hexser")]
+        bytes: Vec<u8>,
+    },
 }
 
 fn script_acceptable(bytes: &[u8]) -> bool {
@@ -280,6 +285,39 @@ pub fn varint_fields(r: &RTx) -> Vec<(usize, usize)> {
     out
 }
 
+/// the byte string a mutation case offers to the parser
+pub fn case_bytes(case: &Case) -> Option<Vec<u8>> {
+    Some(match case {
+        Case::Tx { tx, .. } => wire::encode_tx(&tx.to_ref()),
+        Case::Mutant { tx, muts } => {
+            let mut m = wire::encode_tx(&tx.to_ref());
+            apply_mutations(&mut m, muts);
+            m
+        }
+        Case::LenSubst { tx, field, value, form } => {
+            let r = tx.to_ref();
+            let b = wire::encode_tx(&r);
+            let fields = varint_fields(&r);
+            let (start, len) = fields[gen::pick(*field, fields.len())];
+            let forms = wire::varint_forms(*value);
+            let enc = &forms[(*form as usize) % forms.len()];
+            let mut m = b[..start].to_vec();
+            m.extend_from_slice(enc);
+            m.extend_from_slice(&b[start + len..]);
+            m
+        }
+        Case::Splice { a, b, cut_a, cut_b } => {
+            let ba = wire::encode_tx(&a.to_ref());
+            let bb = wire::encode_tx(&b.to_ref());
+            let mut m = ba[..gen::pick(*cut_a, ba.len() + 1)].to_vec();
+            m.extend_from_slice(&bb[gen::pick(*cut_b, bb.len() + 1)..]);
+            m
+        }
+        Case::Raw { bytes } => bytes.clone(),
+        Case::Varint { .. } => return None,
+    })
+}
+
 impl Property for C01 {
     type Case = Case;
     const ID: &'static str = "C01";
@@ -356,6 +394,40 @@ impl Property for C01 {
         .boxed()
     }
 
+    fn known(case: &Case, f: &Failure) -> Option<&'static str> {
+        // the C02 known finding seen through a transaction: a script whose final direct push after an
+        // OP_RETURN runs past the end of the script is accepted and shortened
+        if f.check != "accepts_malformed_script" {
+            return None;
+        }
+        let m = case_bytes(case)?;
+        let d = wire::decode_tx(&m).ok()?;
+        let mut neutral = d.tx.clone();
+        let fix = |script: &mut Vec<u8>| -> Option<()> {
+            if !script_acceptable(script) {
+                *script = known_lenient_tail(script)?;
+            }
+            Some(())
+        };
+        for i in neutral.ins.iter_mut() {
+            if !i.is_null_outpoint() {
+                fix(&mut i.script)?;
+            }
+        }
+        for x in neutral.outs.iter_mut() {
+            fix(&mut x.script)?;
+        }
+        let nb = wire::encode_tx(&neutral);
+        let mut o = Outcome::new();
+        check_tx_bytes(&nb, &mut o).ok()?;
+        let lib = Transaction::from_bytes(&m).ok()?;
+        if lib.to_bytes().ok()? == nb {
+            Some("return-data-truncated-push")
+        } else {
+            None
+        }
+    }
+
     fn check(case: &Case) -> CheckResult {
         let mut o = Outcome::new();
         match case {
@@ -406,34 +478,25 @@ impl Property for C01 {
                     ensure_eq!(li.get_vout(), ri.vout, "from_outpoint_bytes_vout");
                 }
             }
-            Case::Mutant { tx, muts } => {
-                let r = tx.to_ref();
-                let mut m = wire::encode_tx(&r);
-                apply_mutations(&mut m, muts);
+            Case::Mutant { .. } => {
+                let m = case_bytes(case).unwrap();
                 o.label("byte-mutant");
                 check_tx_bytes(&m, &mut o)?;
             }
-            Case::LenSubst { tx, field, value, form } => {
-                let r = tx.to_ref();
-                let b = wire::encode_tx(&r);
-                let fields = varint_fields(&r);
-                let (start, len) = fields[gen::pick(*field, fields.len())];
-                let forms = wire::varint_forms(*value);
-                let enc = &forms[(*form as usize) % forms.len()];
-                let mut m = b[..start].to_vec();
-                m.extend_from_slice(enc);
-                m.extend_from_slice(&b[start + len..]);
+            Case::LenSubst { value, .. } => {
+                let m = case_bytes(case).unwrap();
                 o.label("length-field-substitution");
                 o.label_if(*value > 0xffff_ffff, "declared>2^32");
                 check_tx_bytes(&m, &mut o)?;
             }
-            Case::Splice { a, b, cut_a, cut_b } => {
-                let ba = wire::encode_tx(&a.to_ref());
-                let bb = wire::encode_tx(&b.to_ref());
-                let mut m = ba[..gen::pick(*cut_a, ba.len() + 1)].to_vec();
-                m.extend_from_slice(&bb[gen::pick(*cut_b, bb.len() + 1)..]);
+            Case::Splice { .. } => {
+                let m = case_bytes(case).unwrap();
                 o.label("splice");
                 check_tx_bytes(&m, &mut o)?;
+            }
+            Case::Raw { bytes } => {
+                o.label("raw");
+                check_tx_bytes(bytes, &mut o)?;
             }
             Case::Varint { n } => {
                 let want = wire::varint_encode(*n);
